@@ -333,8 +333,23 @@ def run(ctx: fw.Ctx):
                        "'canonical' is judged operationally (fixed point of parse/rebuild)"]
     stride, nrand, maxops = (3, 800, 8) if ctx.quick else (1, 12000, 30)
     hists = ep.build_stream(ctx, stride, nrand, maxops, enum_offset=3)
+    hists += call_argument_histories()
     ec.correspond(ctx, hists)
     observe(ctx, hists)
+
+
+def call_argument_histories():
+    """sixth widening (after seeded round 6): the addressed set is the LAST argument of a curried call whose
+    earlier argument is itself an attribute set, or a function that returns one — an edit lands in the
+    addressed argument, also when that argument is `{ }` (C04 only: the shared stream is unchanged)"""
+    out = []
+    for doc in ["mk { a = 1; b = 2; } { }\n", "mk { a = 1; b = 2; } { c = 3; }\n",
+                "{ pkgs }:\npkgs.callPackage ({ stdenv }: stdenv.mkDerivation { pname = \"x\"; version = \"1.0\"; }) { }\n",
+                "callPackage (x: { a = 1; }) { }\n", "(mk { a = 1; }) { }\n"]:
+        for ops in ([("set", "a", "10")], [("set", "version", '"2.0"')], [("rm", "b")], [("rm", "a")],
+                    [("set", "zz", "7"), ("rm", "zz")], [("set", "a", "10"), ("set", "a", "11")]):
+            out.append(ec.run_real(doc, ops, {"wrapper": "call-after-set-argument", "class": "editable", "stream": "special-c04"}))
+    return out
 
 
 def search(ctx: fw.Ctx):
